@@ -203,11 +203,18 @@ def assignment(tables, g, fv, style=0):
 def evaluate(f, A, mode, style=0):
     from nutils import function
     M = _mesh()
-    if mode == 'integral':
-        f = M['dom'].integral(f[..., numpy.newaxis] * M['basis'] * M['J'], degree=1)
     with warnings.catch_warnings():
         warnings.simplefilter('ignore')
         with numpy.errstate(all='ignore'):
+            if mode == 'integral':
+                # the function used inside an integrand over the tiny sample: lowered with points, evaluated by the
+                # equivalent entry points function.eval(integral) / sample.integrate / topology.integrate
+                g = f[..., numpy.newaxis] * M['basis'] * M['J']
+                if style % 3 == 1:
+                    return numpy.asarray(M['dom'].sample('gauss', 1).integrate(g, arguments=A))
+                if style % 3 == 2:
+                    return numpy.asarray(M['dom'].integrate(g, degree=1, arguments=A))
+                f = M['dom'].integral(g, degree=1)
             if style % 2 == 0:
                 return numpy.asarray(function.eval(f, A))
             return numpy.asarray(f.eval(A))
@@ -294,6 +301,20 @@ def _replay_group(item):
         if tuple(f.shape) != tuple(root['sh']) or f.dtype != DT[root['dt']]:
             viol('meta:shape-dtype:' + root['op'], 'result has shape {} dtype {} instead of {} {}'.format(f.shape, f.dtype, root['sh'], root['dt']), variant=v)
         args = {k: (tuple(s), d.__name__) for k, (s, d) in f.arguments.items()}
+        # the model's free arguments (name -> shape, dtype) are what function.arguments_for must report
+        from nutils import function
+        want_args = {tables['args'][a - 1]['name']: (tuple(tables['args'][a - 1]['sh']), DT[tables['args'][a - 1]['dt']].__name__) for a in root['fv']}
+        try:
+            have = {k: (tuple(a.shape), a.dtype.__name__) for k, a in function.arguments_for(f).items()}
+        except Exception as e:
+            have = None
+            viol('meta:arguments_for:raises:' + type(e).__name__, 'arguments_for raised ' + _exc(e), variant=v)
+        if have is not None and (have != args or have != want_args):
+            # known root cause: _Replace computes the unreplaced arguments with `name not in <raw specification>`
+            rawspec = any(n['op'] == 'Replace' and n['spell'][v % len(n['spell'])] not in ('dict-str', 'dict-argument-values', 'dict-array-values') for n in prog)
+            viol('replace:arguments-attribute:membership-test-on-raw-spec' if rawspec else 'meta:arguments:' + root['op'],
+                 'arguments_for / .arguments of the result are {} but the function has the arguments {} ({} spelling)'.format(sorted(have), sorted(want_args), spell_of(prog, v)),
+                 variant=v, have=sorted(have.items()), want=sorted(want_args.items()))
         if base_arguments is None:
             base_arguments = (v, args)
         elif args != base_arguments[1]:
@@ -310,7 +331,7 @@ def _replay_group(item):
             want, bad, _, _ = dag.arr_value(o['val'])
             assert not bad
             # every spelling at the first assignment, the baseline variant at the others
-            vs = list(built) if (o['asg'] == 1 and o['mode'] == 'direct') else list(built)[:1]
+            vs = list(built) if o['asg'] == 1 else list(built)[:1]
             for v in vs:
                 A = assignment(tables, o['asg'], fv, style=v)
                 try:
@@ -341,8 +362,8 @@ def _replay_group(item):
                 out['judged'] += 1
                 if o['bad']['kind'] == 'shape':
                     key = 'eval:shape:accepted:{}-for-{}'.format(tuple(o['badsh']), tuple(tables['args'][o['bad']['x'] - 1]['sh'])).replace(' ', '')
-                else:
-                    key = 'eval:dtype:accepted:' + o['bad']['kind']
+                else:   # one root cause: numpy.asarray(value, dtype=...) in the compiled Argument casts unsafely
+                    key = 'eval:dtype:accepted:unsafe-cast'
                 viol(key, 'a value of the wrong {} for argument {!r} is accepted ({}) and a result returned'.format(
                     'shape {}'.format(tuple(o['badsh'])) if o['bad']['kind'] == 'shape' else 'dtype ({})'.format(o['bad']['kind']), name, mode),
                     got=numpy.asarray(got).tolist(), mode=mode)
